@@ -32,14 +32,16 @@ fn transform_chain(case: &Value) -> Value {
     let expect = |p: (i64, i64)| (m[0][0] * p.0 + m[0][1] * p.1 + t[0], m[1][0] * p.0 + m[1][1] * p.1 + t[1]);
     let mut mism: Vec<Value> = Vec::new();
     // (a) from_instance cascade, (b) elementary cascade
-    for explicit_zero in [false, true] {
+    // the same orientation written three ways: the angle as it is (0 optionally left out), one full turn less (a negative angle)
+    // and one full turn more - an angle means a rotation, whatever multiple of 360 degrees it carries
+    for (explicit_zero, turn) in [(false, 0i64), (true, 0), (true, -360), (true, 360)] {
         let mut ta = Transform::identity();
         let mut tb = Transform::identity();
         for pl in &chain {
-            ta = Transform::cascade(&ta, &Transform::from_instance(&pl.loc, pl.r, angle_opt(pl.a, explicit_zero)));
+            ta = Transform::cascade(&ta, &Transform::from_instance(&pl.loc, pl.r, angle_opt(pl.a + turn, explicit_zero || turn != 0)));
             let refl = if pl.r { Transform::reflect_vert() } else { Transform::identity() };
             let e = Transform::cascade(&Transform::translate(pl.loc.x as f64, pl.loc.y as f64),
-                                       &Transform::cascade(&Transform::rotate(pl.a as f64), &refl));
+                                       &Transform::cascade(&Transform::rotate((pl.a + turn) as f64), &refl));
             tb = Transform::cascade(&tb, &e);
         }
         for x in -3..=3i64 { for y in -3..=3i64 {
@@ -125,7 +127,7 @@ fn transform_chain(case: &Value) -> Value {
         }
         Err(e) => mism.push(json!({"via":"flatten","err":err_str(e)})),
     }
-    json!({"id": id(case), "outcome":"ok", "evals": 49*4 + 3, "nmismatch": mism.len(), "mismatch": mism})
+    json!({"id": id(case), "outcome":"ok", "evals": 49*8 + 3, "nmismatch": mism.len(), "mismatch": mism})
 }
 
 fn transform_pyth(case: &Value) -> Value {
